@@ -201,11 +201,18 @@ func (w *World) SetupProvider(pr *Probes) {
 	var balances []banktypes.Balance
 	for _, a := range w.AcctList {
 		genAccs = append(genAccs, authtypes.NewBaseAccount(a.Addr, a.Priv.PubKey(), a.AccNum, 0))
-		balances = append(balances, banktypes.Balance{
-			Address: a.Addr.String(),
-			Coins:   sdk.NewCoins(sdk.NewCoin(BondDenom, math.NewInt(1_000_000_000_000_000))),
-		})
+		coins := sdk.NewCoins(sdk.NewCoin(BondDenom, math.NewInt(1_000_000_000_000_000)))
+		if a.Name == "faucet" {
+			coins = coins.Add(sdk.NewCoin(RewardDenom, math.NewIntWithDecimal(1, 24)))
+		}
+		balances = append(balances, banktypes.Balance{Address: a.Addr.String(), Coins: coins})
 	}
+	// the consumer rewards pool exists as a module account (as on any provider whose first consumer has connected)
+	poolAcc := authtypes.NewEmptyModuleAccount(providertypes.ConsumerRewardsPool)
+	if err := poolAcc.SetAccountNumber(uint64(len(genAccs))); err != nil {
+		panic(err)
+	}
+	genAccs = append(genAccs, poolAcc)
 	genesis[authtypes.ModuleName] = cdc.MustMarshalJSON(authtypes.NewGenesisState(authtypes.DefaultParams(), genAccs))
 
 	// staking
@@ -314,7 +321,7 @@ func (w *World) SetupProvider(pr *Probes) {
 	c.accountKeep = app.AccountKeeper
 	c.Votes = cfg.Votes
 	if cfg.Record {
-		c.Rec = &ChainRecord{ChainID: chainID, Kind: "provider", Init: mustMarshal(initReq), InitValidators: initRes.Validators}
+		c.Rec = &ChainRecord{ChainID: chainID, Kind: "provider", Init: mustMarshal(initReq), InitValidators: initRes.Validators, InitDigest: sha(mustMarshal(initRes))}
 	}
 	w.P = c
 	c.ProduceBlock(nil, nil)
